@@ -41,6 +41,51 @@ def layer_args(l):
     return {"none": ["-l"], "compress": ["-l", "compress"], "encrypt": ["-l", "encrypt"], "both": ["-l", "compress", "-l", "encrypt"]}[l]
 
 
+def many_interleaved(v, tier, ev, mlar):
+    """More files than mlar's pool of open descriptors (1000), each in two runs separated by all the others: whole-archive
+    extraction has to close and re-open (append) every output file."""
+    wd = workdir("c17-many")
+    n = 1100 if tier == "quick" else 2300
+    members = [dict(name=f"many/d{i % 7}/file-{i:04d}.txt", content=f"<{i}:first half|" + "x" * (i % 23) + f"|second half of {i}>" * (1 + i % 3))
+               for i in range(n)]
+    arch = os.path.join(wd, "many.mla")
+    jp = os.path.join(wd, "job.jsonl")
+    write_jsonl(jp, [dict(path=arch, layers="compress", interleave=True, members=members)])
+    mbt("prod", "cli", "mkarchive", jp)
+    want = {m["name"]: m["content"].encode() for m in members}
+    rec = dict(check="cli-observe", cmd="extract", keymode="missing", layers="compress-interleaved")
+
+    def run(args):
+        p = subprocess.run([mlar] + args, cwd=wd, stdout=subprocess.PIPE, stderr=subprocess.PIPE, timeout=900, preexec_fn=limit_as)
+        return p.returncode, p.stdout, p.stderr.decode(errors="replace")[-300:]
+    out = os.path.join(wd, "x")
+    rc, so, se = run(["extract", "-i", arch, "-o", out])
+    got = {}
+    for d, _, fs in os.walk(out):
+        for f in fs:
+            p = os.path.join(d, f)
+            got[os.path.relpath(p, out)] = open(p, "rb").read()
+    bad = [k for k in want if got.get(k) != want[k]]
+    if rc != 0 or bad or set(got) - set(want):
+        v.violation(dict(rec, kind="extracted-content-differs"), dict(rc=rc, stderr=se, files=n, wrong=bad[:5], nwrong=len(bad),
+                                                                      sample=(got.get(bad[0], b"<missing>")[:120].decode(errors="replace") if bad else None)))
+    rc, so, se = run(["list", "-i", arch])
+    if rc != 0 or sorted(so.decode().splitlines()) != sorted(want):
+        v.violation(dict(rec, cmd="list", kind="listing-differs"), dict(rc=rc, stderr=se, lines=len(so.splitlines())))
+    tar = os.path.join(wd, "many.tar")
+    rc, so, se = run(["to-tar", "-i", arch, "-o", tar])
+    try:
+        tf = tarfile.open(tar)
+        gt = {m.name: tf.extractfile(m).read() for m in tf.getmembers() if m.isfile()}
+    except Exception as e:  # noqa
+        gt = {"error": str(e).encode()}
+    if rc != 0 or gt != want:
+        v.violation(dict(rec, cmd="totar", kind="tar-differs"), dict(rc=rc, stderr=se, members=len(gt)))
+    shutil.rmtree(wd, ignore_errors=True)
+    ev["many_files"] = n
+    log(f"[C17] {n} interleaved files (two runs each, more than the pool of 1000 descriptors): extract, list, to-tar compared")
+
+
 def main(tier):
     v = Verdict("C17", tier)
     ev = dict(tlc=[])
@@ -252,7 +297,8 @@ def main(tier):
             v.violation(rec, ctx)
     shutil.rmtree(wd, ignore_errors=True)
     log(f"[C17] Cli: {len(behs)} pipeline/observer/key behaviours, {len(built)} archives built, {nobs} observations made with the real mlar")
-    cov = dict(states=r.distinct, transitions=r.generated, traces_validated_against_impl=nobs, samples=samples or ["none"],
+    many_interleaved(v, tier, ev, mlar)
+    cov = dict(interleaved_files_extracted=ev.get("many_files", 0), states=r.distinct, transitions=r.generated, traces_validated_against_impl=nobs, samples=samples or ["none"],
                behaviours_from_model=len(behs), archives_built=len(built), tlc_runs=ev["tlc"], exhaustive=True,
                rule="pipelines create (-> convert | repair)^{0..MaxSteps} over {none, compress, encrypt, both} x observers "
                     "{list, -v, -vv, cat, extract, extract one, to-tar, convert, repair, info} x key modes {right, wrong, missing, "
